@@ -704,6 +704,18 @@ class IPPO(MultiAgentRLAlgorithm):
                     batch_returns,
                     batch_values,
                 ) = get_experiences_samples(minibatch_idxs, *experiences)
+                verif_hooks.record(
+                    "ippo.minibatch",
+                    idxs=minibatch_idxs,
+                    batch=(
+                        batch_states,
+                        batch_actions,
+                        batch_log_probs,
+                        batch_advantages,
+                        batch_returns,
+                        batch_values,
+                    ),
+                )
 
                 # NOTE: squeeze() would also remove the action dimension of size-1 action spaces
                 batch_actions = (
